@@ -52,7 +52,7 @@ func vDataFrame(id uint32, length int, data []byte, endStream bool) *FrameHeader
 // the connection window never reaches zero, the stream gets its bytes back
 // unless it just ended, no increment is 0 and no window passes 2^31-1.
 //
-//verif:harness prop=C14,C13 unwind=8 timeout=300 use=vStubReqAppendBodyCount
+//verif:harness prop=C14,C13,C09 unwind=8 timeout=300 use=vStubReqAppendBodyCount
 func VerifH_C14_server() {
 	sc := vNewServerConn()
 	strm := &Stream{id: 1, state: StreamStateOpen, headersFinished: true, window: 65535}
